@@ -441,6 +441,9 @@ func verifyAndFillConfig(cfg *ResponseConfig, nowMS int) error {
 	if cfg.StopTimeS != nil && *cfg.StopTimeS < cfg.StartTimeS {
 		return fmt.Errorf("stop time %d is before start time %d", *cfg.StopTimeS, cfg.StartTimeS)
 	}
+	if !cfg.AvailabilityTimeCompleteFlag && math.IsInf(cfg.getAvailabilityTimeOffsetS(), 1) {
+		return fmt.Errorf("chunkdur cannot be combined with infinite availabilityTimeOffset")
+	}
 	if cfg.SegTimelineNrFlag && cfg.SegTimelineFlag {
 		return fmt.Errorf("SegmentTimelineTime and SegmentTimelineNr cannot be used at same time")
 	}
